@@ -260,6 +260,23 @@ func CheckBackfillOrder(c *checker, o KVObs, collName string) {
 	for _, e := range mid {
 		full[e.Key] = e
 	}
+	// a KeysOnly backfill describes the same documents, without bodies and xattrs
+	if o.BackfillKeysOnly != nil {
+		ko := o.BackfillKeysOnly
+		if len(ko) < 2 || len(ko)-2 != len(mid) {
+			c.add("C09", "backfill.keysonly", "KeysOnly backfill has %d events, the full one %d", len(ko)-2, len(mid))
+		} else {
+			for i, e := range ko[1 : len(ko)-1] {
+				f := mid[i]
+				if e.Key != f.Key || e.Opcode != f.Opcode || e.Cas != f.Cas || e.Expiry != f.Expiry || e.RevNo != f.RevNo {
+					c.add("C09", "backfill.keysonly", "KeysOnly backfill describes %s as %s, the full backfill as %s", f.Key, e, f)
+				}
+				if e.HasBody || len(e.Xattrs) > 0 {
+					c.add("C09", "backfill.keysonly", "KeysOnly backfill event for %s carries a value: %s", f.Key, e)
+				}
+			}
+		}
+	}
 	for s, evs := range o.BackfillFrom {
 		if len(evs) < 2 || evs[0].Opcode != "BeginBackfill" || evs[len(evs)-1].Opcode != "EndBackfill" {
 			c.add("C09", "backfill.markers", "backfill from %d is not framed by markers: %v", s, evs)
